@@ -744,13 +744,6 @@ int parse_instruction_65816(AsmContext *asm_context, char *instr)
           op = OP_ADDRESS24;
         }
 
-        // forward label
-        if (num == 0)
-        {
-          int worst_case = asm_context->memory_read(asm_context->address);
-          if (worst_case == 1) { size = 16; }
-        }
-
         GET_TOKEN();
         if (token_type == TOKEN_EOL || token_type == TOKEN_EOF) { break; }
 
